@@ -10,6 +10,8 @@ def main():
     results, paths = games.walk_traces(chk, events=800 if q else 12000, files=8 if q else 32, max_depth=6 if q else 8,
                                        label="shallow")
     n1, d1 = games.collect_walk(chk, results, paths)
+    # double pushes landing beside an enemy pawn that is pinned on any line or free (TLC family, every successor judged)
+    games.dblpush_lines(chk)
     results2, paths2 = games.walk_traces(chk, events=400 if q else 12000, files=4 if q else 16, label="deep")
     n2, d2 = games.collect_walk(chk, results2, paths2)
     # the same positions under different (high) clocks: walks with move repetitions from roots with clocks near 100 -
